@@ -14,14 +14,14 @@ enum {
   OP_COMPILE_DEFAULT, OP_COMPILE_SSE, OP_COMPILE_MMX, OP_COMPILE_C,
   OP_TAKE, OP_RESET, OP_RUN, OP_EMULATE,
   OP_EX_NEW, OP_EX_RUN, OP_EX_EMULATE, OP_EX_FREE,
-  OP_RUN_CODE, OP_EMULATE_CODE, OP_FREE_CODE, OP_FREE_PROGRAM, OP_N
+  OP_RUN_CODE, OP_EMULATE_CODE, OP_FREE_CODE, OP_FREE_PROGRAM, OP_NEW_BC, OP_N
 };
 static const char *opname[] = {
   "new", "add_ok", "add_mismatch", "add_float", "add_unknown", "add_latefail",
   "compile_default", "compile_sse", "compile_mmx", "compile_c",
   "take_code", "reset", "run", "emulate",
   "ex_new", "ex_run", "ex_emulate", "ex_free",
-  "run_code", "emulate_code", "free_code", "free_program"
+  "run_code", "emulate_code", "free_code", "free_program", "new_from_bytecode"
 };
 
 /* ---- reference model (legality + expectations) ---- */
@@ -39,7 +39,7 @@ typedef struct {
 static int legal (const Model * m, int op)
 {
   switch (op) {
-    case OP_NEW: return !m->prog;
+    case OP_NEW: case OP_NEW_BC: return !m->prog;
     case OP_ADD_OK: case OP_ADD_MISMATCH: case OP_ADD_FLOAT: case OP_ADD_UNKNOWN: case OP_ADD_LATEFAIL:
       /* also after a clean compile: the program is extended and has to be compiled again before it is run */
       if (m->compiled) return m->prog && m->compiled == 1 && !m->sticky && m->ninsn < 2 && op != OP_ADD_UNKNOWN;
@@ -63,6 +63,7 @@ static void step_model (Model * m, int op, int result_class)
 {
   switch (op) {
     case OP_NEW: m->prog = 1; m->sticky = 0; m->ninsn = 0; m->last_float = m->has_float = m->has_mismatch = m->has_unknown = m->has_late = 0; m->compiled = 0; m->runnable = 0; break;
+    case OP_NEW_BC: m->prog = 1; m->sticky = 0; m->ninsn = 2; m->last_float = m->has_float = m->has_mismatch = m->has_unknown = m->has_late = 0; m->compiled = 0; m->runnable = 0; break;
     case OP_ADD_OK: m->ninsn++; m->last_float = 0; m->runnable = 0; break;
     case OP_ADD_MISMATCH: m->ninsn++; m->has_mismatch = 1; m->runnable = 0; break;
     case OP_ADD_FLOAT: m->ninsn++; m->last_float = 1; m->has_float = 1; m->runnable = 0; break;
@@ -119,6 +120,7 @@ static void ex_setup (OrcExecutor * ex, orc_int32 * d)
   ex->arrays[ORC_VAR_S2] = (void *) S2;
 }
 
+static OrcBytecode *g_bc;
 /* returns 0 ok / 1 failure (failmsg); *rclass gets the compile result class */
 static int do_op (int op, const Model * m, int *rclass)
 {
@@ -133,6 +135,11 @@ static int do_op (int op, const Model * m, int *rclass)
       /* every temporary slot taken (named, unused): all 16 names have to be released with the program */
       { int k; char nm[8]; for (k = 0; k < 16; k++) { sprintf (nm, "t%d", k + 1); orc_program_add_temporary (P, 4, nm); } }
       orc_program_set_name (P, "life");
+      break;
+    case OP_NEW_BC:
+      /* the constructor generated wrappers use: the whole program (name, arrays, parameter, one addl) from bytecode */
+      P = orc_program_new_from_static_bytecode (g_bc->bytecode);
+      if (!P) { snprintf (failmsg, sizeof (failmsg), "orc_program_new_from_static_bytecode returned NULL"); return 1; }
       break;
     case OP_ADD_OK: orc_program_append_str (P, "addl", "d1", "s1", "s2"); break;
     case OP_ADD_MISMATCH: orc_program_append_str (P, "addw", "d1", "s1", "s2"); break;
@@ -346,6 +353,14 @@ int main (int argc, char **argv)
   if (dl > 0) v_deadline = v_now () + dl;
   setvbuf (stdout, NULL, _IOLBF, 0);
   orc_init ();			/* zygote */
+  {
+    OrcProgram *t = orc_program_new_dss (4, 4, 4);
+    orc_program_add_parameter (t, 4, "p1");
+    orc_program_set_name (t, "life_from_bytecode");
+    orc_program_append_str (t, "addl", "d1", "s1", "s2");
+    g_bc = orc_bytecode_from_program (t);
+    orc_program_free (t);
+  }
   memset (&m, 0, sizeof (m));
   if (rep) {
     int n = 0, k;
